@@ -824,6 +824,19 @@ def known_witness():
     return ok_members and kind != "ok", dict(members_evaluate=ok_members, constructor=[kind, res if kind != "ok" else "instance"])
 
 
+def aliasing_probe():
+    """Observation only (not part of the property's text): when a key and one of its prefixes are
+    both reported, _repr_options holds the CALLER's nested dictionary, so a later mutation of the
+    caller's dictionary shows through the instance."""
+    from labrea import Option, datasetclass
+    cls = datasetclass(type("KA", (), {"s": Option("S"), "x": Option("S.X")}))
+    o = {"S": {"X": 1, "Y": 2}}
+    inst = cls(o)
+    before = repr(inst)
+    o["S"]["X"] = 99
+    return before != repr(inst)
+
+
 def run(ctx):
     import collections
     rng = ctx.rng
@@ -886,6 +899,8 @@ def run(ctx):
         "distribution": dict(stats, member_kinds=dict(member_kinds), oracle_checks=checks, model_cases=len(cases),
                              mismatches=len(mism), untagged_violations=sum(1 for v in viol if v["finding"] is None)),
         "exhaustive": False,
+        "notes": ["observation (outside the property's text): an instance built from a class reporting both 'S' and 'S.X' shares the "
+                  f"caller's nested dictionary; a later mutation of the caller's dictionary changes its repr: {aliasing_probe()}"],
         "assumptions": [
             "option values are JSON data without template braces; list-index keys are never applied to strings (outside Base.v's universe)",
             "member functions are deterministic functions of the options dictionary (Section variables of the theorems)",
